@@ -31,8 +31,9 @@ def split_out_segments(lines: list[str], segs: list[str], sep: str, ii: str, si:
     if sep == "hard":
         cur: list[str] = []
         for ln in lines:
-            if ln.endswith("\\") and len(groups) < len(segs) - 1:
-                cur.append(ln[:-1])
+            # a hard break is spelled with a trailing backslash or with two or more trailing spaces
+            if (ln.endswith("\\") or ln.endswith("  ")) and len(groups) < len(segs) - 1:
+                cur.append(ln[:-1] if ln.endswith("\\") else ln.rstrip(" "))
                 groups.append(cur)
                 cur = []
             else:
@@ -310,7 +311,7 @@ class C05(Prop):
             hard_end = sep == "hard" and j < len(segs) - 1
             # the first word after a hard break starts a line inside the paragraph: it may be escaped too
             devs = judge(seg, g, width, first_ind, si, fill=not sem, first_line_escape=(sep == "hard" and j > 0))
-            if hard_end and width > 0 and g:
+            if hard_end and width > 0 and g and res.split("\n")[sum(len(x) for x in groups[:j + 1]) - 1].endswith("\\"):
                 # the trailing backslash of a hard break is part of the emitted line
                 last = g[-1]
                 if len(last) + 1 > width and len(norm(last[len(si if len(g) > 1 else first_ind):]).split(" ")) > 1 \
